@@ -177,7 +177,10 @@ def check(nworkers, limit):
     resp = os.path.join(ROOT, 'check.json')
     done = json.load(open(resp)) if os.path.exists(resp) else {}
     fp = file_props()
-    todo = [i for i in sorted(surv) if str(i) not in done][:limit]
+    import random
+    order = sorted(surv)
+    random.Random(7).shuffle(order)             # a fixed random order: a prefix is a sample over all files
+    todo = [i for i in order if str(i) not in done][:limit]
     chunks = [todo[k::nworkers] for k in range(nworkers)]
 
     def run(k):
